@@ -143,8 +143,8 @@ func checkCheckWiring(w *World, r *Result) {
 					return true
 				}
 				jvCalls++
-				if render(info, call.Args[0], sub) == js.Name {
-					jvArgOK = true
+				if a := render(info, call.Args[0], sub); a == js.Name || a == js.Name+".Type()" {
+					jvArgOK = true // the column's JSON type, handed over whole or as the Go type it stores
 				}
 				if d, n := identOf(as.Lhs[0]), identOf(as.Lhs[1]); d != nil && n != nil {
 					sub[objOf(info, d)] = "$jvDecls"
